@@ -28,6 +28,10 @@ type enumValueLoader struct {
 	// lastIdx index of last added enum value.
 	lastIdx int
 
+	// commented the last value has got its comment: a comment line which
+	// follows belongs to no value.
+	commented bool
+
 	// inProgress true - if loading in progress, false - if loading finisher.
 	inProgress bool
 }
@@ -96,8 +100,9 @@ func (l *enumValueLoader) commentEnd(lex lexeme.LexEvent) {
 	}
 
 	// A comment in front of the first value belongs to no value.
-	if l.lastIdx < l.enumConstraint.Len() {
+	if l.lastIdx < l.enumConstraint.Len() && !l.commented {
 		l.enumConstraint.SetComment(l.lastIdx, lex.Value().TrimSpaces().String())
+		l.commented = true
 	}
 	l.stateFunc = l.annotationEnd
 }
@@ -115,6 +120,7 @@ func (l *enumValueLoader) literal(lex lexeme.LexEvent) {
 	case lexeme.LiteralBegin:
 	case lexeme.LiteralEnd:
 		l.lastIdx = l.enumConstraint.Append(constraint.NewEnumItem(lex.Value(), ""))
+		l.commented = false
 		l.stateFunc = l.arrayItemEnd
 	default:
 		panic(errors.ErrIncorrectArrayItemTypeInEnumRule)
